@@ -12,8 +12,12 @@ RULE = ("integer-coordinate tree sequences: msprime (recombining; Kingman/Beta/D
         "samples) through structural mutators (delete an interval = every spanning node gets two pieces, cut "
         "part of an edge, isolate a sample over an interval, keep_unary subset) and msprime-free random DAG tables "
         "(nodes with many disjoint pieces, isolated nodes, regions without edges), plus extra mutations on "
-        "arbitrary nodes (on isolated samples, before the first / beyond the last edge, in gaps of their node, "
-        "several per site); x node metadata none / permissive JSON. Non-trivial = at least one node is split")
+        "arbitrary nodes (on isolated samples, before the first / beyond the last edge, in gaps of their node, 40% exactly "
+        "ON tree breakpoints / piece boundaries, "
+        "several per site); tied node times; ~40% of the inputs decorated by gen.exotic (extra flag bits incl. an "
+        "already-set NODE_SPLIT_BY_PREPROCESS, ALL nodes renumbered, root mutations, mutation-free sites incl. "
+        "num_sites == num_mutations, arbitrary states, populations); a tree sequence without edges; x node metadata "
+        "none / permissive JSON. Non-trivial = at least one node is split")
 ASSUME = ["tskit: tables.sort / build_index / compute_mutation_parents / Tree API / genotype_matrix",
           "integer genomic coordinates in the correspondence; the theorems are about the model over Z",
           "node ids of edges and mutations are in range (tskit validates this)",
@@ -171,8 +175,12 @@ def oracle(ctx, ts, ts2, rp, order, check_idempotent=True):
     # (two mutations on one branch at one site: the genotype then depends on the order tskit's
     # sort gives to tied rows -- DESIGN.md section 9, K9 -- so genotypes are not compared there)
     if ts.num_samples and ts.num_sites and len(set(pairs)) == len(pairs):
-        if list(ts.samples()) != list(ts2.samples()) or not np.array_equal(ts.genotype_matrix(), ts2.genotype_matrix()):
-            return fail("genotypes", "genotype matrix changed")
+        # compared as allele STRINGS per sample: the integer coding of genotype_matrix follows the row
+        # order of a site's mutations, which tskit's sort may permute (K9)
+        def alleles(t):
+            return [[v.alleles[g] if g >= 0 else None for g in v.genotypes] for v in t.variants()]
+        if list(ts.samples()) != list(ts2.samples()) or alleles(ts) != alleles(ts2):
+            return fail("genotypes", "the samples' alleles changed at some site")
     # (g) idempotence
     if check_idempotent:
         ts3 = impl_split(ts2)
@@ -201,6 +209,9 @@ def make_item(rng):
         ts = S.delete_interval(rng, ts, flank="mid")
         kind += "+midgap"
         ts = S.add_mutations(rng, ts, k=rng.randint(1, 5))
+    if ts.num_mutations and rng.random() < 0.35:
+        ts = S.site_mutation_coincidence(rng, ts)      # num_sites == num_mutations, map not one-to-one
+        kind += "+sites=muts"
     jsonmd = rng.random() < 0.3
     if jsonmd:
         ts = with_json_metadata(ts)
